@@ -161,8 +161,18 @@ class Analysis:
             fi = field_index(self.f, tname, p[1])
             keyfn = TS.enum_key_fn(ip, (("f", fi),))
         elif p[0] == "intclass":
-            fi = field_index(self.f, tname, p[1])
-            keyfn = TS.int_class_key_fn(ip, (("f", fi),), p[2])
+            try:
+                fi = field_index(self.f, tname, p[1])
+                keyfn = TS.int_class_key_fn(ip, (("f", fi),), p[2])
+            except AnchorMissing:
+                # the countdown is no longer an integer field: if the object carries exactly one private enum instead,
+                # partition by its variant (a re-encoding of the same states); otherwise fail closed
+                adt = self.f.adts.get(tname)
+                enums = [i for i, fl in enumerate(adt["variants"][0]["fields"]) if fl["ty"].get("k") == "adt"
+                         and fl["ty"]["def"] in self.f.adts and len(self.f.adts[fl["ty"]["def"]]["variants"]) > 1] if adt else []
+                if len(enums) != 1:
+                    raise
+                keyfn = TS.enum_key_fn(ip, (("f", enums[0]),))
         else:
             keyfn = TS.single_key_fn
         inv = TS.Invariant(ip, tname, keyfn)
